@@ -151,6 +151,8 @@ PAGES = {
 # histories, and a difference on them is re-executed alone before it is believed
 SLOW_KINDS = ("luaTimeout", "slowModule")
 OPTION_KINDS = sorted(k for k in PAGES if k.startswith("opt"))
+# a difference on these pages can be a matter of the clock (they wait for it, or their own call runs under a small limit)
+TIMING_KINDS = set(SLOW_KINDS) | {k for k, v in PAGES.items() if "timeout" in v[2]}
 OPT_CELLS = {"otimelimit": "timeout=", "oinvoke": "expand_invoke=", "oparserfns": "expand_parserfns=", "opreexpand": "pre_expand=",
              "otmplsets": "templates_to_expand= / templates_to_not_expand= / additional_expand= / do_not_pre_expand=",
              "otmplfns": "template_fn= / post_template_fn=", "oexpandall": "expand_all=", "oquiet": "quiet="}
@@ -781,7 +783,7 @@ def invocation_histories(o, tier, gen, demo, dld, demos_nest):
         # pools are over, the TLC job of the V direction too) before the difference is believed
         timing = {"executed_again_alone": 0, "not_confirmed": 0}
         for j, (it, (got, _)) in enumerate(zip(items, results)):
-            if got != it[4] and any(k in INV_SLOW for k in it[2]) and timing["executed_again_alone"] < 12:
+            if got != it[4] and any(k in INV_SLOW | INV_LIMITED for k in it[2]) and timing["executed_again_alone"] < 12:
                 f_rv.result()
                 timing["executed_again_alone"] += 1
                 results[j] = inv_worker([it])[0]
@@ -970,6 +972,20 @@ def invocation_histories(o, tier, gen, demo, dld, demos_nest):
         vd = verdicts[n]
         if not vd["law"]:
             raise common.TLCError("ContextInvoke: MeetsDemand fails on %r without deviation" % (h,))
+        unexplained = [j for j in vd["bad"] if not (vd["asis"][j - 1] != vd["exp"][j - 1] and inv_abstract(h[j - 1], got[j - 1]) == vd["asis"][j - 1])]
+        if unexplained and any(k in INV_LIMITED for k in h) and timing["executed_again_alone"] < 16:
+            # Timing rule: some call of this history ran under a small time limit: executed again alone; the
+            # demanded outcomes stay those TLC computed for the history
+            timing["executed_again_alone"] += 1
+            with Scratch("c09ir-") as d2:
+                (d2 / "base").mkdir()
+                inv_populate(d2 / "base" / "pages.db")
+                (got, _), = inv_worker([(d2 / "base", "r", h, "calls", None)])
+            vd = dict(vd, bad=[i + 1 for i in range(len(h)) if inv_abstract(h[i], got[i]) != vd["exp"][i]], keptExplains=False,
+                      limKeptExplains=[inv_abstract(k, t) for k, t in zip(h, got)] == vd.get("limkept"))
+            if not vd["bad"]:
+                timing["not_confirmed"] += 1
+                o.note_drift({"timing_dependent_difference_not_confirmed": {"history": h, "origin": "I/V"}})
         for i in sorted(j - 1 for j in vd["bad"]):
             x, a = vd["exp"][i], vd["asis"][i]
             exp_i = inv_render(x) if x["k"] != "page" else ""
@@ -1033,7 +1049,7 @@ def run(tier: str) -> int:
         # when the history, executed again ALONE (nothing else of this check running), shows it again
         recheck = {}
         for hist, res in [(c["hist"], r) for c, r in zip(cases, results)] + list(zip(extra, vres)):
-            if any(k in SLOW_KINDS and res[i] != fresh[k] for i, k in enumerate(hist)) and len(recheck) < 40:
+            if any(k in TIMING_KINDS and res[i] != fresh[k] for i, k in enumerate(hist)) and len(recheck) < 40:
                 recheck.setdefault(tuple(hist), None)
         if recheck:     # alone: also the TLC jobs in the background have to be over
             for f in [f_gen, f_demo, f_dld, f_mc, f_mco] + list(f_dn.values()) + list(f_dmo.values()):
@@ -1042,7 +1058,7 @@ def run(tier: str) -> int:
             recheck[h] = run_many([(list(h), dbdir)], nproc=1)[0]
     o.extra["timing_rechecks"] = {"histories_executed_again_alone": len(recheck),
                                   "differences_not_confirmed": sum(1 for h, r in recheck.items() for i, k in enumerate(h)
-                                                                   if k in SLOW_KINDS and r[i] == fresh[k])}
+                                                                   if k in TIMING_KINDS and r[i] == fresh[k])}
     known = sorted(o.known)
     t_page.append(time.time())
     # V: the recorded random histories are replayed through the model by TLC
@@ -1067,7 +1083,7 @@ def run(tier: str) -> int:
                     "in_history": json.dumps(res[i], default=str)[:500], "fresh_context": json.dumps(fresh[kind], default=str)[:500]}
             if PAGES[kind][2]:
                 case["options"] = _opts_text(kind)
-            if kind in SLOW_KINDS:
+            if kind in TIMING_KINDS:
                 if again is None or again[i] == fresh[kind]:
                     # not executed again (too many) or not confirmed alone: a matter of the load of the machine
                     o.note_drift({"timing_dependent_difference_not_confirmed": case})
@@ -1218,5 +1234,19 @@ def selftest() -> int:
     print("recorded", ngot, "->", [(x["ok"], x["sharedExplains"]) for x in nv])
     ok = ok and [(x["ok"], x["sharedExplains"]) for x in nv] == [(True, False), (False, True), (False, False)]
     ok = ok and nest_expected(rec) == ngot and nest_leaks(rec["prog"][1], both["prog"][1]) and not nest_leaks(rec["prog"][1], rec["prog"][1])
+    # (round 8) options of one call: the models in which they stay in force violate the laws; a recorded <call with a
+    # small time limit, slow invocation without one> passes, the recording of a context that keeps the limit is rejected
+    # and explained by TimeLimitKept
+    for mod, cfg in (("Gen_Context", "Demo_Context_timelimit.cfg"), ("Gen_Context", "Demo_Context_calloptions.cfg"),
+                     ("Gen_ContextInvoke", "Demo_ContextInvoke_timelimit.cfg")):
+        dv = tlc(mod, cfg, workers=1, check=False)
+        print(cfg, "violates its law in the model:", bool(dv.invariant_violated))
+        ok = ok and bool(dv.invariant_violated)
+    lgot, lev = inv_record(["lim_peek", "slow"])
+    lbad = json.loads(json.dumps(lev))
+    lbad[1].update(res="timeout", v="")
+    lv = inv_trace([lev, lbad])
+    print("recorded", lgot, "->", [(x["bad"], x["limKeptExplains"]) for x in lv])
+    ok = ok and [(x["bad"], x["limKeptExplains"]) for x in lv] == [([], False), ([2], True)]
     print("selftest", "ok" if ok else "FAILED")
     return 0 if ok else 1
